@@ -153,9 +153,11 @@ pub fn run(o: &Opts) {
         json!({"stream": "c11-project", "case": name}));
     }
   }
+  crate::c11case::run_case_tie(&mut out, &mut rng, if o.thorough { 6000 } else { 1500 });
   out.finish("rule documents from 20 generators (extreme / non-numeric nthChild and substring numbers, An+B strings at the i32 limits, empty / multi-byte / sigil-only transform sources, invalid regexes in regex / replace / expansions, \
               convert on multi-byte acronyms, ranges, reference cycles through all/any/not/matches, nthChild.ofRule and relational rules, cyclic and dangling transformations, rewriters with expanding fixes and unknown ids, \
               textual mutations of a valid rule, random keys and types, labels / metadata / globs) each loaded and run on a source (file and --stdin) by the debug-build CLI in a child process under a 15 s limit; \
               plus project-level cases (orphan snapshot, unknown test id, garbage sgconfig / test / util files, missing directories, custom language without library). \
-              Failure = panic exit, abort / stack overflow, hang, or a rejection without any message. non-trivial = the document was accepted and the scan ran");
+              Failure = panic exit, abort / stack overflow, hang, or a rejection without any message. \
+              Plus the tie of the `convert` word splitter (fid 51): random texts over a 33-character alphabet (ASCII, 2/3/4-byte upper- and lower-case letters, uncased letters, title-case, separators) and acronym + wide-letter texts through kebab/snake conversion, words mapped back to byte ranges. non-trivial = the document was accepted and the scan ran");
 }
